@@ -1479,16 +1479,19 @@ class ClientRequest(ClientRequestBase):
             asyncio.CancelledError: When the operation is cancelled
 
         """
-        # 100 response
-        if self._continue is not None:
-            # Force headers to be sent before waiting for 100-continue
-            writer.send_headers()
-            await writer.drain()
-            await self._continue
-
         protocol = conn.protocol
         assert protocol is not None
         try:
+            # 100 response
+            # (inside the try: a final response instead of "100 Continue"
+            # cancels this wait with the body unsent, and such a connection
+            # must not be reused either)
+            if self._continue is not None:
+                # Force headers to be sent before waiting for 100-continue
+                writer.send_headers()
+                await writer.drain()
+                await self._continue
+
             await self._body.write_with_length(writer, content_length)
         except OSError as underlying_exc:
             reraised_exc = underlying_exc
